@@ -927,6 +927,16 @@ def _reindent_combos():
     return out
 
 
+RESPELLED_CLAUSES = [
+    'select a, count(*) from t where b = 1 group\tby a order\tby a',
+    'select a, count(*) from t where b = 1 group\nby a having count(*) > 1 order  \t by a limit 3',
+    'select a from t left\touter\njoin u on t.x = u.y inner\tjoin v on v.z = u.y where a = 1 union\tall select 2 from w',
+    'select a from t cross\n join u where a between 1 and 2 and b = 3 or c = 4 order\r\nby a',
+    'update t set a = 1 where b = 2',
+    'select a from t natural\tjoin u full\touter\tjoin w on 1 = 1 except select 3 from x group   by y',
+]
+
+
 def cases_C10(tier='quick', seed=0):
     rnd = random.Random(seed * 7919 + 10)
     combos = _reindent_combos()
@@ -937,6 +947,11 @@ def cases_C10(tier='quick', seed=0):
         yield (t, sw)
         yield (t, so)
         yield (t, ri)
+    # clause keywords of several words spelled with a tab, a line break or several blanks between the words
+    for t in RESPELLED_CLAUSES:
+        yield (t, ri)
+        for c in combos[:6]:
+            yield (t, c)
     mult = 1 if tier == 'quick' else 8
     k = 0
     fams = [dict(seed=seed * 10 + 1, n=2000 * mult, comments=False, depth=2),
